@@ -286,7 +286,8 @@ def main():
     for k in kviol:
         path = kani_run.write_replay(pid, k)
         vcount += 1
-        out_lines.append(f"VIOLATION property={pid} replay={path} obligation=kani::{k['harness']}")
+        tail = "" if k.get("cex") else " no-failing-input-found"
+        out_lines.append(f"VIOLATION property={pid} replay={path} obligation=kani::{k['harness']}{tail}")
         rc = 1
     if rc == 0 and undecided:
         rc = 2
